@@ -120,4 +120,55 @@ theorem relistsAfter_of_backoff {w w' : World} (hph : w'.phase = .backoff) (ho :
     simp [step, hph, hp, startListing, emit]
 
 
+/-! ### a pending watch request never survives a noticed pause -/
+
+/-- while a watch request is pending, the pause-waiter has not fired (it would have cancelled it) -/
+def ConnFresh (w : World) : Prop := w.phase = .connecting → w.pauseSeen = false
+
+theorem connFresh_init : ConnFresh init := by simp [ConnFresh, init]
+
+theorem connFresh_step {w : World} (h : ConnFresh w) (a : Act) : ConnFresh (step w a) := by
+  unfold ConnFresh at *
+  cases a <;> simp only [step] <;> (repeat' split) <;> (try cases ‹ReqFail›) <;>
+    simp_all [toBackoff, fail, emit, startListing, rewatch] <;> (repeat' split) <;> simp_all
+
+theorem connFresh_run {w : World} (h : ConnFresh w) (as : List Act) : ConnFresh (run w as) := by
+  induction as generalizing w with
+  | nil => exact h
+  | cons a as ih => exact ih (connFresh_step h a)
+
+theorem watchAttemptCount_cons (o : Out) (os : List Out) :
+    watchAttemptCount (o :: os) = (if o.isWatchAttempt then 1 else 0) + watchAttemptCount os := by
+  unfold watchAttemptCount
+  by_cases h : o.isWatchAttempt = true <;> simp [h] <;> omega
+
+theorem watchAttemptCount_append_items (xs : List Entry) (past : List Out) :
+    watchAttemptCount (xs.map (fun e => Out.item e.key e.rv) ++ past) = watchAttemptCount past := by
+  induction xs with
+  | nil => rfl
+  | cons x xs ih => simp [watchAttemptCount_cons, Out.isWatchAttempt, ih]
+
+/-- in a quiet state no act makes the client send (or re-send) a WATCH request -/
+theorem watchAttempt_step_quiet {w : World} (hq : Quiet w) (hc : ConnFresh w) (a : Act) :
+    watchAttemptCount (step w a).outs = watchAttemptCount w.outs := by
+  by_cases hr : a = .respond ∧ w.phase = .listing
+  · obtain ⟨rfl, hph⟩ := hr
+    have hs : w.pauseSeen = true := by
+      unfold Quiet at hq; simp_all
+    rw [respond_listing_outs w hph, if_pos hs, List.nil_append]
+    show watchAttemptCount (Out.listed w.srv :: (itemsBlock w.log ++ w.outs)) = _
+    rw [watchAttemptCount_cons, itemsBlock_eq, watchAttemptCount_append_items]
+    simp [Out.isWatchAttempt]
+  · unfold Quiet ConnFresh at *
+    cases a <;> simp only [step]
+    case respond =>
+        split
+        · rename_i hph; exact absurd ⟨rfl, hph⟩ hr
+        · (repeat' split) <;> simp [toBackoff, fail, emit, watchAttemptCount_cons, Out.isWatchAttempt]
+        · rfl
+    all_goals
+      (repeat' split) <;> (try cases ‹ReqFail›) <;>
+        simp_all [toBackoff, fail, emit, startListing, rewatch, watchAttemptCount_cons, Out.isWatchAttempt] <;>
+        (repeat' split) <;> simp_all [emit, watchAttemptCount_cons, Out.isWatchAttempt]
+
 end Kopf.C19
